@@ -188,7 +188,16 @@ pub fn check_c21(mode: &CliMode, out: &RunOut, known: &Known, selected: &BTreeSe
     if out.timed_out {
         return Err(viol("no_termination", "run exceeded the real-time tripwire"));
     }
-    if out.stderr.contains("deadlock") && out.stderr.contains("blocked tasks") {
+    // A panic of the main thread leaves the log thread blocked, which the simulator then reports as
+    // a deadlock as well: the first report decides the class.
+    let first_panic = out.stderr.find("panicked at ");
+    let deadlock = out.stderr.find("deadlock! blocked tasks");
+    let first_is_deadlock = match (first_panic, deadlock) {
+        (Some(p), Some(d)) => out.stderr[p..d].matches("panicked at ").count() == 1,
+        (None, Some(_)) => true,
+        _ => false,
+    };
+    if first_is_deadlock {
         return Err(viol("deadlock", "all threads blocked: the simulator's deadlock detector fired"));
     }
     if let Some(key) = panic_key(&out.stderr) {
